@@ -344,6 +344,11 @@ theorem C41_tasks_once (c : Cfg) (sched : List Action) :
   have := count_le_one_of_sorted (plog_sorted hq) i
   omega
 
+/-- non-vacuity: on the witness of the recorded defect the task IS processed exactly once —
+    what fails there is only that the frame ends Enriched -/
+example : (run defaultCfg init witnessSeq).qlog = [1] ∧ (run defaultCfg init witnessSeq).plog = [1] ∧
+    Quiescent (run defaultCfg init witnessSeq) ∧ ¬ OnceAt (run defaultCfg init witnessSeq) := by decide
+
 /-! ### C41_once_partial -/
 
 /-- the worker never executes `get_next_task` while a put is still an uncommitted WAL record -/
